@@ -62,7 +62,7 @@ theorem ret_case {n : Nat} {k : Fun.Stack} {ρ ρ1 : CEnv} {cs' : Core.Clauses}
     (h : KRel (GP p) q n k (.case ρ cs')) {v : Fun.Value} {V : CVal} {S : Core.State}
     (hv : VRel (GP p) q n v V) (hn : n ≤ S.fresh) (ha : AgreeOn (tfvClauses cs' []) ρ ρ1)
     (hs : Core.step q S = S.pass V (.case ρ1 cs')) :
-    Chunk p q (R p q) true (.ret v k) S := by
+    Chunk p q (R p q) true true μ (.ret v k) S := by
   cases h with
   | @caseF cs env k' ρ0 _ c _ hgood hcc he hr hy hbd hag =>
     cases hv with
@@ -112,7 +112,7 @@ theorem ret_case {n : Nat} {k : Fun.Stack} {ρ ρ1 : CEnv} {cs' : Core.Clauses}
             exact hy b hb (by rw [← e]) (by rw [← e]; exact hm4 x hx)
           have hsub1 : ∀ x ∈ st.usedVars, x ∈ st1.usedVars := used_sub_of_fresh hfs1.1
           refine .inr ⟨0, _, .eval cl.body env' k', [], 1, _, .refl _, .inr ⟨none, hstep, rfl⟩,
-            (fun _ => .inr (.inl (by intro h; cases h))), .one hcore, by simp, ?_⟩
+            (fun _ => .inr (.inl (by intro h; cases h))), (fun _ => .inl (Nat.le_refl 1)), .one hcore, by simp, ?_⟩
           refine SRel.eval (ρ0 := ρ0') (c := c) hg ?_ (he'.mono hn) ?_ ?_ ?_
           · refine ⟨st1, st2, hcb, hstok.of_fresh hfs2.1, ⟨fun x hx => ?_, fun x hx => ?_, hfs1.2 hcn.nosig⟩,
               (hcons.mono hn).mono_st hsub1⟩
